@@ -6,7 +6,10 @@ import (
 	"encoding/hex"
 	"encoding/json"
 	"fmt"
+	"math"
+	"reflect"
 	"sort"
+	"strconv"
 	"strings"
 	"unicode/utf8"
 
@@ -110,6 +113,24 @@ var c04Templates = []c04Tmpl{
 	{"map.nested_create", "literal.map", "lit", "CREATE (n:NodeKind1 {a: {b: §}}) RETURN n"},
 	{"map.return", "literal.map", "lit", "MATCH (n) RETURN {k: §, inner: {x: §}} AS x"},
 	{"interval.harness_primer", "harness.bound_sql", "lit", "MATCH p = allShortestPaths((s:NodeKind1)-[*..]->(e:NodeKind2)) WHERE s.created_at > datetime() - duration(§) RETURN p"},
+	// ---- numeric literals: the value the server reads back from the number token must be the value the Cypher token denotes
+	{"num.where_eq", "literal.number", "num", "MATCH (n) WHERE n.score = § RETURN n"},
+	{"num.where_gt", "literal.number", "num", "MATCH (n) WHERE n.score > § RETURN n"},
+	{"num.where_neg", "literal.number", "num", "MATCH (n) WHERE n.score = -§ RETURN n"},
+	{"num.return", "literal.number", "num", "RETURN § AS x"},
+	{"num.in_list", "literal.number", "num", "MATCH (n) WHERE n.score IN [§, §] RETURN n"},
+	{"num.arith", "literal.number", "num", "MATCH (n) RETURN n.score * § AS x"},
+	{"num.set", "literal.number", "num", "MATCH (n) SET n.score = § RETURN n"},
+	{"num.create", "literal.number", "num", "CREATE (n:NodeKind1 {score: §}) RETURN n"},
+	{"num.pattern_map", "literal.number", "num", "MATCH (n {score: §}) RETURN n"},
+	{"num.expansion", "literal.number", "num", "MATCH (s:NodeKind1)-[:EdgeKind1*1..]->(e:NodeKind2) WHERE s.score = § RETURN e"},
+	{"num.harness_primer", "harness.bound_sql", "num", "MATCH p = allShortestPaths((s:NodeKind1)-[*..]->({score: §})) RETURN p"},
+	{"num.harness_pair", "harness.literal_sql", "num", "MATCH p = allShortestPaths((s:NodeKind1)-[*..]->(e)) WHERE e.score = § AND s.name = 'x' RETURN p"},
+	{"num.skip_limit", "literal.number", "numint", "MATCH (n) RETURN n SKIP § LIMIT §"},
+	{"nparam.where_eq", "parameter.number", "nparam", "MATCH (n) WHERE n.score = $pv RETURN n"},
+	{"nparam.pattern_map", "parameter.number", "nparam", "MATCH (n {score: $pv}) RETURN n"},
+	{"nparam.harness_primer", "parameter.materialized", "nparam", "MATCH p = allShortestPaths((s:NodeKind1)-[*..]->({score: $pv})) RETURN p"},
+	{"nparam.harness_pair", "parameter.materialized", "nparam", "MATCH p = allShortestPaths((s:NodeKind1)-[*..]->(e)) WHERE e.score = $pv AND s.name = 'x' RETURN p"},
 	// ---- text reaching the SQL passed to the traversal (shortest path) functions
 	{"harness.primer", "harness.bound_sql", "lit", "MATCH p = allShortestPaths((s:NodeKind1)-[*..]->({name: §})) RETURN p"},
 	{"harness.primer_sp.like", "harness.bound_sql", "lit", "MATCH p = shortestPath((t:NodeKind1)<-[:EdgeKind1|EdgeKind2*1..]-(s:NodeKind2)) WHERE t.system_tags CONTAINS § AND s <> t RETURN p LIMIT 10"},
@@ -235,6 +256,179 @@ func c04Random(rng *Rng) string {
 	return b.String()
 }
 
+// c04Numbers: Cypher numeric literal tokens (non-negative; the templates carry the sign). Doubles with 8 and 17 significant
+// digits, integral doubles around 2^24, 2^53, 2^63, the thresholds where Go's 'g' format would switch to an exponent
+// (1e21, 1e-7 — 'f' never does), subnormals, the largest double, exponent-form tokens, integers up to 2^63-1.
+func c04Numbers(rng *Rng, thorough bool) []string {
+	out := []string{
+		"0.123456789", "16777217.0", "16777216.0", "16777215.0", "0.30000000000000004", "0.1", "0.3", "0.5", "1.5", "0.0", "0.333333333333333314829616256247",
+		"9007199254740992.0", "9007199254740993.0", "9007199254740991.0", "9223372036854775808.0", "9223372036854775807.0", "18446744073709551616.0",
+		"1e21", "1e20", "999999999999999900000.0", "1e22", "1.0e23", "1e-7", "1E-7", "0.000001", "0.0000001", "9.999999e-8", "1.5e300", "1.7976931348623157e308",
+		"5e-324", "4.9406564584124654e-324", "2.2250738585072014e-308", "2.2250738585072009e-308", "1e-320", "123456789.125", "0.1234567", "0.12345678", "1.00000001",
+		"3.141592653589793", "2.718281828459045", "100000000.5", "4294967296.5", "0.000000000000000000001",
+		"0", "1", "7", "42", "2147483647", "2147483648", "4294967295", "4294967296", "16777217", "9007199254740993", "9223372036854775807", "1000000000000000000",
+	}
+	n := 40
+	if thorough {
+		n = 1500
+	}
+	for i := 0; i < n; i++ {
+		switch rng.Intn(4) {
+		case 0: // a random finite double, positional notation
+			v := math.Float64frombits(rng.Next() &^ (1 << 63))
+			if math.IsInf(v, 0) || math.IsNaN(v) {
+				v = 1.25
+			}
+			t := strconv.FormatFloat(v, 'f', -1, 64)
+			if !strings.Contains(t, ".") {
+				t += ".0"
+			}
+			out = append(out, t)
+		case 1: // 8..17 significant digits around 1
+			digits := 8 + rng.Intn(10)
+			t := "0."
+			for j := 0; j < digits; j++ {
+				t += string(rune('0' + rng.Intn(10)))
+			}
+			out = append(out, t+"1")
+		case 2: // exponent form
+			out = append(out, fmt.Sprintf("%d.%de%d", rng.Intn(10), rng.Intn(1000000), rng.Intn(600)-300))
+		default:
+			out = append(out, strconv.FormatUint(rng.Next()>>uint(1+rng.Intn(62)), 10))
+		}
+	}
+	return out
+}
+
+// c04NumParams: typed parameter values "<go type>:<text>" that the formatter inlines under MaterializeParameters.
+func c04NumParams(rng *Rng, thorough bool) []string {
+	out := []string{
+		"float64:0.123456789", "float64:16777217", "float64:0.30000000000000004", "float64:-0.123456789", "float64:1e21", "float64:1e-7", "float64:5e-324",
+		"float64:1.7976931348623157e308", "float64:9007199254740993", "float64:-9223372036854775808", "float64:0", "float64:123456789.125",
+		"float32:0.1", "float32:16777216", "float32:0.123456789", "float32:-3.4028235e38", "float32:1e-45", "float32:0.3",
+		"int:9223372036854775807", "int:-9223372036854775808", "int64:9223372036854775807", "int64:-9223372036854775808", "int64:-1", "int32:2147483647", "int32:-2147483648",
+		"int16:-32768", "int16:32767", "int8:-128", "int8:127", "uint:18446744073709551615", "uint64:18446744073709551615", "uint32:4294967295", "uint16:65535", "uint8:255",
+	}
+	n := 20
+	if thorough {
+		n = 600
+	}
+	for i := 0; i < n; i++ {
+		v := math.Float64frombits(rng.Next())
+		if math.IsInf(v, 0) || math.IsNaN(v) {
+			continue
+		}
+		out = append(out, "float64:"+strconv.FormatFloat(v, 'g', -1, 64), "float32:"+strconv.FormatFloat(float64(float32(math.Float32frombits(uint32(rng.Next())))), 'g', -1, 32),
+			"int64:"+strconv.FormatInt(int64(rng.Next()), 10))
+	}
+	return out
+}
+
+// c04NumExp renders the expectation for a number: sign, class and magnitude (float64 bit pattern of |v| or the integer |v|).
+func c04NumExpF(v float64) string {
+	sign := "pos"
+	if math.Signbit(v) {
+		sign = "neg"
+	}
+	return fmt.Sprintf("%s f64 \"%d\"", sign, math.Float64bits(math.Abs(v)))
+}
+
+func c04NumExpI(neg bool, mag uint64) string {
+	sign := "pos"
+	if neg {
+		sign = "neg"
+	}
+	return fmt.Sprintf("%s int \"%d\"", sign, mag)
+}
+
+// c04ParseNumToken: what the frontend does with a numeric literal token (strconv.ParseInt base 10 / ParseFloat 64).
+func c04ParseNumToken(tok string) (exp string, ok bool) {
+	if !strings.ContainsAny(tok, ".eE") {
+		v, err := strconv.ParseInt(tok, 10, 64)
+		if err != nil || v < 0 {
+			return "", false
+		}
+		return c04NumExpI(false, uint64(v)), true
+	}
+	v, err := strconv.ParseFloat(tok, 64)
+	if err != nil || math.IsInf(v, 0) || math.IsNaN(v) {
+		return "", false
+	}
+	return c04NumExpF(v), true
+}
+
+// c04TypedNumber parses "<type>:<text>" into the Go value and its expectation; benign = the twin of the same type and sign.
+func c04TypedNumber(spec string) (value, benign any, exp, bexp string, ok bool) {
+	i := strings.IndexByte(spec, ':')
+	if i < 0 {
+		return
+	}
+	typ, text := spec[:i], spec[i+1:]
+	neg := strings.HasPrefix(text, "-")
+	switch typ {
+	case "float64", "float32":
+		bits := 64
+		if typ == "float32" {
+			bits = 32
+		}
+		v, err := strconv.ParseFloat(text, bits)
+		if err != nil || math.IsNaN(v) || math.IsInf(v, 0) {
+			return
+		}
+		b := 7.25
+		if math.Signbit(v) {
+			b = -7.25
+		}
+		if typ == "float32" {
+			return float32(v), float32(b), c04NumExpF(float64(float32(v))), c04NumExpF(b), true
+		}
+		return v, b, c04NumExpF(v), c04NumExpF(b), true
+	case "uint", "uint64", "uint32", "uint16", "uint8":
+		v, err := strconv.ParseUint(text, 10, 64)
+		if err != nil {
+			return
+		}
+		exp, bexp = c04NumExpI(false, v), c04NumExpI(false, 7)
+		switch typ {
+		case "uint":
+			return uint(v), uint(7), exp, bexp, true
+		case "uint64":
+			return v, uint64(7), exp, bexp, true
+		case "uint32":
+			return uint32(v), uint32(7), exp, bexp, true
+		case "uint16":
+			return uint16(v), uint16(7), exp, bexp, true
+		default:
+			return uint8(v), uint8(7), exp, bexp, true
+		}
+	case "int", "int64", "int32", "int16", "int8":
+		v, err := strconv.ParseInt(text, 10, 64)
+		if err != nil {
+			return
+		}
+		mag := uint64(v)
+		b := int64(7)
+		if neg {
+			mag = uint64(-v) // two's complement: correct for MinInt64 too
+			b = -7
+		}
+		exp, bexp = c04NumExpI(neg, mag), c04NumExpI(neg, 7)
+		switch typ {
+		case "int":
+			return int(v), int(b), exp, bexp, true
+		case "int64":
+			return v, b, exp, bexp, true
+		case "int32":
+			return int32(v), int32(b), exp, bexp, true
+		case "int16":
+			return int16(v), int16(b), exp, bexp, true
+		default:
+			return int8(v), int8(b), exp, bexp, true
+		}
+	}
+	return
+}
+
 // c04Long are the 64 KiB strings.
 func c04Long() []string {
 	const n = 1 << 16
@@ -307,6 +501,19 @@ func (c04Suite) Gen(rng *Rng, tier string, w *bufio.Writer, stats *Stats) {
 	seenSite := map[string]bool{}
 	seenKind := map[string]bool{}
 	for ti, t := range c04Templates {
+		if t.Kind == "num" || t.Kind == "numint" || t.Kind == "nparam" {
+			vals := c04Numbers(rng, thorough)
+			if t.Kind == "nparam" {
+				vals = c04NumParams(rng, thorough)
+			}
+			for _, v := range vals {
+				if t.Kind == "numint" && strings.ContainsAny(v, ".eE") {
+					continue
+				}
+				emit(t, "std", v)
+			}
+			continue
+		}
 		firstOfSite := !seenSite[t.Site]
 		firstOfKind := !seenKind[t.Kind]
 		seenSite[t.Site] = true
@@ -438,6 +645,19 @@ func c04Params(p map[string]any) string {
 				b.WriteString(" " + jsonQuote(e))
 			}
 			b.WriteString(")")
+		case float64:
+			b.WriteString("(n " + c04NumExpF(v) + ")")
+		case float32:
+			b.WriteString("(n " + c04NumExpF(float64(v)) + ")")
+		case int, int8, int16, int32, int64:
+			iv := reflect.ValueOf(v).Int()
+			if iv < 0 {
+				b.WriteString("(n " + c04NumExpI(true, uint64(-iv)) + ")")
+			} else {
+				b.WriteString("(n " + c04NumExpI(false, uint64(iv)) + ")")
+			}
+		case uint, uint8, uint16, uint32, uint64:
+			b.WriteString("(n " + c04NumExpI(false, reflect.ValueOf(v).Uint()) + ")")
 		case pgtype.JSONB:
 			var decoded any
 			if v.Status == pgtype.Present && json.Unmarshal(v.Bytes, &decoded) == nil {
@@ -634,6 +854,9 @@ func (r *c04Runner) Step(t []string, raw string) string {
 	if isBuilder {
 		return c04bStep(btmpl, s, r.stats)
 	}
+	if tmpl.Kind == "num" || tmpl.Kind == "numint" || tmpl.Kind == "nparam" {
+		return r.stepNumber(tmpl, s)
+	}
 	hraw, ok1 := c04Token(tmpl.Kind, enc, s)
 	braw, ok2 := c04Token(tmpl.Kind, enc, c04Benign)
 	if !ok1 || !ok2 {
@@ -681,6 +904,49 @@ func (r *c04Runner) Step(t []string, raw string) string {
 		jsonQuote(tmpl.Site), jsonQuote(tmpl.ID), kind, tmpl.Xf(), jsonQuote(hraw), jsonQuote(braw), jsonQuote(s), jsonQuote(c04Benign), hres, bres, fc, extra)
 }
 
+// stepNumber: numeric literal tokens and typed numeric parameter values.
+func (r *c04Runner) stepNumber(tmpl c04Tmpl, s string) string {
+	var (
+		h, b      c04Out
+		exp, bexp string
+		braw      = "7.25"
+	)
+	if tmpl.Kind == "nparam" {
+		value, benign, e, be, ok := c04TypedNumber(s)
+		if !ok {
+			return "(r (skip \"bad-number\"))"
+		}
+		exp, bexp, braw = e, be, fmt.Sprint(benign)
+		h = c04Translate(tmpl.Query, c04Mapper(""), map[string]any{"pv": value}, false, r.stats)
+		b = c04Translate(tmpl.Query, c04Mapper(""), map[string]any{"pv": benign}, false, r.stats)
+	} else {
+		e, ok := c04ParseNumToken(s)
+		if !ok {
+			return "(r (skip \"bad-number\"))"
+		}
+		if !strings.ContainsAny(s, ".eE") {
+			braw = "7"
+		}
+		be, _ := c04ParseNumToken(braw)
+		exp, bexp = e, be
+		h = c04Translate(strings.ReplaceAll(tmpl.Query, "§", s), c04Mapper(""), nil, true, r.stats)
+		b = c04Translate(strings.ReplaceAll(tmpl.Query, "§", braw), c04Mapper(""), nil, false, r.stats)
+	}
+	r.stats.Inc("run.num")
+	if strings.HasPrefix(h.res, "(ok") {
+		r.stats.Inc("translated.num")
+	} else {
+		r.stats.Inc("rejected.num")
+	}
+	kind := "num"
+	if tmpl.Kind == "nparam" {
+		kind = "nparam"
+	}
+	extra := h.extra + " (math " + h.mat + ") (matb " + b.mat + ")"
+	return fmt.Sprintf("(r (site %s) (tmpl %s) (kind %s) (xf -) (hraw %s) (braw %s) (hval %s) (bval %s) (nexp (h %s) (b %s)) (h %s) (b %s) (fc %s)%s)",
+		jsonQuote(tmpl.Site), jsonQuote(tmpl.ID), kind, jsonQuote(s), jsonQuote(braw), jsonQuote(s), jsonQuote(braw), exp, bexp, h.res, b.res, h.fc, extra)
+}
+
 // ---------------------------------------------------------------- c04q: differential of the string functions
 
 type c04qSuite struct{}
@@ -703,6 +969,33 @@ func (c04qSuite) Gen(rng *Rng, tier string, w *bufio.Writer, stats *Stats) {
 	}
 	for i := 0; i < nrand; i++ {
 		all = append(all, c04Random(rng))
+	}
+	// decimal texts for the float8 read-back model: 'f' renderings of random doubles at 64 and at 32 bits, the literal list
+	nnum := 600
+	if tier == "thorough" {
+		nnum = 40000
+	}
+	numTexts := []string{}
+	for _, t := range c04Numbers(rng, tier == "thorough") {
+		if !strings.ContainsAny(t, "eE") {
+			numTexts = append(numTexts, t)
+		}
+	}
+	for i := 0; i < nnum; i++ {
+		v := math.Float64frombits(rng.Next() &^ (1 << 63))
+		if math.IsInf(v, 0) || math.IsNaN(v) {
+			continue
+		}
+		numTexts = append(numTexts, strconv.FormatFloat(v, 'f', -1, 64), strconv.FormatFloat(v, 'f', -1, 32), strconv.FormatFloat(v, 'f', 3+rng.Intn(20), 64))
+	}
+	for _, t := range numTexts {
+		if t == "" || t[0] < '0' || t[0] > '9' { // +Inf: a double beyond the float32 range rendered at 32 bits
+			continue
+		}
+		n++
+		fmt.Fprintf(w, "# case %d\n", n)
+		fmt.Fprintf(w, "n %s\n", t)
+		stats.Inc("numbers")
 	}
 	for _, s := range all {
 		emit(s)
@@ -751,6 +1044,15 @@ func (c04qSuite) NewRunner(stats *Stats) Runner {
 func hx(s string) string { return hex.EncodeToString([]byte(s)) }
 
 func (r *c04qRunner) Step(t []string, raw string) string {
+	if len(t) == 2 && t[0] == "n" {
+		// float8 input of a positional decimal text: Go's correctly rounded ParseFloat vs the Lean model's nearestF64Bits
+		v, err := strconv.ParseFloat(t[1], 64)
+		if err != nil && !math.IsInf(v, 0) {
+			return "bad-op"
+		}
+		r.stats.Inc("numbers")
+		return fmt.Sprintf("f64=%d", math.Float64bits(v))
+	}
 	if len(t) < 2 || t[0] != "q" {
 		return "bad-op"
 	}
